@@ -14,7 +14,7 @@ package main
 //
 // Op line (also input of the Lean driver `xvdriver enc`):
 //
-//	vc cls=<label> ver=<1|3> from=<V|I> sg=<signer>,... amts=<a>,... in=<input>,... cin=<input>,... cout=<output>,... out=<output>,...
+//	vc cls=<label> ver=<1|3> from=<V|I> sg=<signer>,... amts=<a>,... in=<input>,... cin=<input>,... cout=<output>,... out=<output>,... [req=0]
 //	   -> accept|reject
 //
 //	signer   A<i> (the first one is the initiator) | C<n>|A<i> (listed signer of account n); every signer signs validly,
@@ -22,7 +22,8 @@ package main
 //	input    <t>.<o>/<owner>/<amount>   txid number t, offset o, owner V (= $xvvault) | A<i> | C<n>
 //	output   <amount>/<to>
 //	in/out   TxInputs / TxOutputs;  cin/cout: what the pre-execution is said to have spent / paid
-//	amts     argument of the carried request
+//	amts     argument of the carried request;  req=0: the transaction carries no request at all (and so no code that
+//	         could spend anything), whatever it declares
 //
 // cls is a label for the statistics only: the oracle judges the content of the line.
 
@@ -96,6 +97,7 @@ type vcOut struct {
 }
 
 type vcLine struct {
+	noReq     bool
 	cls, from string
 	ver       int32
 	sg        []string
@@ -122,8 +124,12 @@ func (l vcLine) String() string {
 		}
 		return joinOr(s, ",")
 	}
-	return fmt.Sprintf("vc cls=%s ver=%d from=%s sg=%s amts=%s in=%s cin=%s cout=%s out=%s", l.cls, l.ver, l.from, strings.Join(l.sg, ","),
+	r := fmt.Sprintf("vc cls=%s ver=%d from=%s sg=%s amts=%s in=%s cin=%s cout=%s out=%s", l.cls, l.ver, l.from, strings.Join(l.sg, ","),
 		joinOr(l.amts, ","), ins(l.in), ins(l.cin), outs(l.cout), outs(l.out))
+	if l.noReq {
+		r += " req=0"
+	}
+	return r
 }
 
 func (l vcLine) clone() vcLine {
@@ -139,7 +145,7 @@ func (l vcLine) clone() vcLine {
 
 func parseVc(line string) vcLine {
 	m := parseKV(strings.Fields(line)[1:])
-	l := vcLine{cls: m["cls"], from: m["from"], ver: int32(atoi(m["ver"])), sg: splitOr(m["sg"], ","), amts: splitOr(m["amts"], ",")}
+	l := vcLine{noReq: m["req"] == "0", cls: m["cls"], from: m["from"], ver: int32(atoi(m["ver"])), sg: splitOr(m["sg"], ","), amts: splitOr(m["amts"], ",")}
 	ins := func(s string) []vcIn {
 		var r []vcIn
 		for _, e := range splitOr(s, ",") {
@@ -198,9 +204,11 @@ func vcOutputs(xs []vcOut) []*protos.TxOutput {
 // buildVc assembles and signs the transaction the line describes.
 func buildVc(l vcLine) *pb.Transaction {
 	tx := &pb.Transaction{Version: l.ver, Nonce: "vc", Timestamp: 1700000002, Desc: []byte("withdraw"),
-		TxInputs: vcInputs(l.in), TxOutputs: vcOutputs(l.out),
-		ContractRequests: []*protos.InvokeRequest{{ModuleName: "xkernel", ContractName: vaultName, MethodName: "withdraw",
-			Args: map[string][]byte{"amounts": []byte(strings.Join(l.amts, ",")), "from": []byte(l.from)}}}}
+		TxInputs: vcInputs(l.in), TxOutputs: vcOutputs(l.out)}
+	if !l.noReq {
+		tx.ContractRequests = []*protos.InvokeRequest{{ModuleName: "xkernel", ContractName: vaultName, MethodName: "withdraw",
+			Args: map[string][]byte{"amounts": []byte(strings.Join(l.amts, ",")), "from": []byte(l.from)}}}
+	}
 	if len(l.cin) > 0 {
 		v, err := xmodel.MarshalMessages(vcInputs(l.cin))
 		must(err)
@@ -238,6 +246,9 @@ func specReexec(l vcLine) (spent []vcIn, paid []vcOut, ok bool) {
 		payer = l.sg[0]
 	}
 	rest := l.cin
+	if l.noReq {
+		return nil, nil, true // no code is carried: nothing is spent, nothing is paid
+	}
 	for _, a := range l.amts {
 		amount := dec(a)
 		if amount.Sign() <= 0 {
@@ -500,6 +511,21 @@ func tamperVc(h vcLine) []vcLine {
 	emit("request:payer-changed", func(l *vcLine) { l.from = map[string]string{"V": "I", "I": "V"}[l.from] })
 	emit("request:amount-added", func(l *vcLine) { l.amts = append(l.amts, "1") })
 	emit("signer:added", func(l *vcLine) { l.sg = append(l.sg, "A4") })
+	// the transaction carries no request at all, but still declares what "the code" spent
+	emit("request:dropped", func(l *vcLine) { l.noReq = true })
+	emit("request:dropped-declared-cleared", func(l *vcLine) { l.noReq = true; l.cin, l.cout = nil, nil })
+	emit("request:dropped-payments-cleared", func(l *vcLine) { l.noReq = true; l.cout = nil })
+	emit("request:dropped+owner:A6:tx-and-declared", func(l *vcLine) {
+		l.noReq = true
+		l.in[first(l)].owner = "A6"
+		l.cin[0].owner = "A6"
+	})
+	emit("request:dropped+owner:A6:tx-and-declared+payments-cleared", func(l *vcLine) {
+		l.noReq = true
+		l.in[first(l)].owner = "A6"
+		l.cin[0].owner = "A6"
+		l.cout = nil
+	})
 	return res
 }
 
